@@ -69,6 +69,15 @@ def execute(case):
             da = da.assign_coords({n: c for n, c in ds.coords.items() if set(c.dims) <= set(da.dims)})
         elif a["input_coords"] == "foreign":
             da = da.assign_coords({d: np.arange(sizes[d]) * -7.0 - 3 for d in da.dims})
+        if case.get("id", 0) % 5 == 0:
+            # dask-backed input, split along its first dimension: names and coordinates are the same as for in-memory
+            # data (a split along a dimension whose shift involves inner / outer is refused, which the spec sees as a
+            # call that raised - so only dimensions that are not operated on, or shifts among center/left/right)
+            opd = {d for x in g["axes"] if x["name"] in a["axis"] for _, d in x["pos"]}
+            io = any(p in ("inner", "outer") for x in g["axes"] if x["name"] in a["axis"] for p, _ in x["pos"])
+            cand = [d for d in da.dims if (d not in opd or not io) and da.sizes[d] >= 2]
+            if cand:
+                da = da.chunk({cand[0]: 1})
         kw = model.call_kwargs(a, nm)
         kw["keep_coords"] = a["keep_coords"]
         if a["weighted"]:
